@@ -78,6 +78,10 @@ def run(ctx):
     # accepted, but no proposed context is acceptable: the requestor aborts; both sides must still end as aborted
     for d in (0, 1):
         scenarios.append({"req": ["idle"], "acc": "none", "acc_delay_ms": d, "reject": False, "shake": bool(d), "timeouts": 1.0, "nocx": True})
+    # the requestor gives up (ACSE timeout) and aborts while the acceptor is still inside its negotiation
+    for f in (2.0, 3.0):
+        scenarios.append({"req": ["idle"], "acc": "none", "acc_delay_ms": 0, "reject": False, "shake": False, "timeouts": 0.5,
+                          "acc_slow_requested": f})
     results = e2e.run_many(scenarios, ctx.seed, workers=12)
     good = [r for r in results if "harness_error" not in r and not r.get("hang") and not r.get("inconclusive")]
     for r in results:
@@ -96,7 +100,7 @@ def run(ctx):
         sc = r["script"]
         case = ["scenario", sc, q[1], q[2]]
         est = "established" in q[1][4]
-        ctx.case(case, nontrivial=est or bool(sc.get("nocx")), kind=f"{sc['req'][-1]}/{sc['acc']}" + ("/rej" if sc["reject"] else "") + ("/no-acceptable-context" if sc.get("nocx") else ""))
+        ctx.case(case, nontrivial=est or bool(sc.get("nocx")) or bool(sc.get("acc_slow_requested")), kind=f"{sc['req'][-1]}/{sc['acc']}" + ("/rej" if sc["reject"] else "") + ("/no-acceptable-context" if sc.get("nocx") else "") + ("/abort-during-negotiation" if sc.get("acc_slow_requested") else ""))
         pv = py_verdict(q[1], q[2])
         if pv != lean_v:
             ctx.diff(case, pv, lean_v, "python oracle and Lean Outcome.verdict disagree")
